@@ -20,7 +20,7 @@ Q_CONFIGS = [(1, 0, False), (2, 0, False), (3, 1, False), (3, 1, True), (4, 1, F
 def shards(tier, seed):
     from vlib.runner import ALL_CONFIGS
     cfgs = Q_CONFIGS if tier == 'quick' else ALL_CONFIGS
-    return [{'name': config_name(c), 'cfg': list(c), 'programs': (150 if c[0] <= 5 else 60) if tier == 'quick' else 1500} for c in cfgs]
+    return [{'name': config_name(c), 'cfg': list(c), 'programs': (300 if c[0] <= 5 else 120) if tier == 'quick' else 1500} for c in cfgs]
 
 
 def payload(rng, pid, k):
